@@ -509,6 +509,38 @@ def c13(ck):
     ck.run_family(Family("session-frames", "ses", ses, shrink=core.shrink_ops_line(4), decisive=False, oracle=oracle_fast,
                          bulk_project=lambda outs: drv_run("termproj", outs),
                          nontrivial=lambda c, o: "w:" in c or "0d" in c))
+    # the help the derive macros generate is application-like output framed by the library (command lists of plain sets and of groups with
+    # hidden / empty / nested members, command help with arguments, options and sub-commands): every frame byte for byte against the model,
+    # and the rule itself - nothing but CR LF between the echoed line and the output, exactly one line break before the prompt
+    declgen, sets = ensure_decls(ck)
+    hses = []
+    for k, s_ in enumerate(sets):
+        if not thorough and k >= 24:
+            break
+        names = declgen.all_names(s_)
+        lines = ["help"] + [x for nm in names[:6] for x in ("help " + declgen.q(nm), declgen.q(nm) + " --help")] + ["help nosuch"]
+        for i in range(0, len(lines), 7):
+            hses.append(lines_to_session(k, lines[i:i + 7], cap=100))
+
+    def oracle_help(case, io):
+        es = enter_steps(case, io)
+        if es is None:
+            return "crash / malformed output: " + io[:300]
+        for line, st in es:
+            if st is None or st["r"] != "ok":
+                continue
+            b_ = sinkb(st["sink"])
+            if not b_.startswith("0d0a"):
+                return "the output of `%s` does not start on a fresh line: %s" % (line, b_[:60])
+            if b_.startswith("0d0a0d0a") and line == "help":
+                return "the command list of `help` starts with an empty line: %s" % b_[:80]
+            body = b_[:b_.rfind(gen.hx(b"$ "))] if b_.endswith(gen.hx(b"$ ")) else None
+            if body is not None and len(body) > 4 and not body.endswith("0d0a"):
+                return "before the prompt after `%s` there is not exactly the end of the last output line: ...%s" % (line, body[-40:])
+        return None
+
+    ck.run_family(Family("derived-help-frames", "ses", hses, oracle=oracle_help, shrink=core.shrink_ops_line(4),
+                         project=lambda o: [(x["r"], sinkb(x["sink"])) for x in (parse_steps(o) or [])] or o, nontrivial=lambda c, o: True))
     return ck.finish(trusted=TB_COMMON, rule="writer-frame: random texts (LF, CR LF, CR, empty) split over write_str/writeln_str/uwrite!/write! calls inside "
                      "Cli::write; sink bytes compared with the extracted frame_write; session-frames: random sessions, sink bytes per call "
                      "implementation vs model. non-trivial = at least one write")
@@ -1036,7 +1068,7 @@ def c14(ck):
                    dl(0, "ge") + ";b:09", dl(3, "help опция"),
                    "40 64 1 d0 b:67652020;b:1b5b44;b:1b5b44;b:1b5b44;b:09;b:0d", "40 64 1 d4 b:6578;b:1b5b44;b:09;b:0d"]
     for k, s_ in enumerate(sets):
-        if thorough or k < 22:
+        if thorough or k < 23:
             # every write the generated help code makes (list of commands, every command's own help, nested sub-command help: usage line
             # with [COMMAND] / <COMMAND>, arguments, options, sub-command list) is failed once and for good
             decl_corpus.append(dl(k, "help"))
@@ -1300,6 +1332,14 @@ def c03(ck):
             cap = rng.choice([0, 1, 2, 5, 9, 17, 33, 64, 120, 120, 120])
             dses.append("%d %d %d d%d %s" % (cap, rng.choice([0, 1, 7, 32, 64]), rng.randrange(4), k, ";".join(ops)))
     dses += tab_sweep_sessions(declgen, sets)
+    # every value-taking argument of every command with the edge values of its type (empty, far too long, multi-byte, other case):
+    # a conversion written for one field type panics only there
+    for k, s_ in enumerate(sets):
+        if not thorough and k >= 24:
+            break
+        vl = [l for e in declgen.set_enums(s_) for c_ in e["cmds"] for l in declgen.value_edge_lines(rng, c_)]
+        for i in range(0, len(vl), 10):
+            dses.append(lines_to_session(k, vl[i:i + 10], cap=130))
     ck.run_family(Family("derived-session-malformed-debug", "ses", dses, oracle=oracle, shrink=core.shrink_ops_line(4), decisive=False,
                          project=lambda o: [(s_["r"], s_["text"], s_["cur"], s_["hist"], s_["calls"]) for s_ in (parse_steps(o) or [])] or o,
                          nontrivial=lambda c, o: True))
@@ -1526,6 +1566,7 @@ def c09(ck):
             for c_ in e["cmds"]:
                 lines += declgen.missing_arg_lines(rng, c_)       # each required argument missing on its own
                 lines += declgen.signed_boundary_lines(rng, c_)   # integer positionals at and beyond both ends of their range (after `--`)
+                lines += declgen.value_edge_lines(rng, c_)        # every value-taking argument with the edge values of its type
         for i in range(0, len(lines), 8):
             cases.append(lines_to_session(k, lines[i:i + 8], cap=120))
         # the second time: the same line again right away, after a rejected line, after a help request
@@ -1675,7 +1716,7 @@ def c16(ck):
     for line in ["help", "help echo", "echo -h", "echo --help a", "x -vh", "he", "quiet -- -h"]:
         ses.append("24 32 1 raw b:%s;b:09;b:0d;b:1b5b41;b:1b5b42;b:0d" % gen.hx(line.encode()))
     for k, s_ in enumerate(sets):
-        if k < (len(sets) if thorough else 22):
+        if k < (len(sets) if thorough else 23):
             lines = [declgen.rand_decl_line(rng, s_) for _ in range(6)] + ["help", declgen.q((declgen.all_names(s_) or ["x"])[0]) + " --help"]
             ses.append(lines_to_session(k, lines, cap=100))
             # every command with nothing after its name, and with every positional but the last: "missing required argument" by its
